@@ -20,7 +20,7 @@ func TestNodeGen(t *testing.T) {
 		t.Skip("development aid")
 	}
 	var sb strings.Builder
-	sb.WriteString(objdrv.Prelude + prelude8 + `
+	sb.WriteString("(function(){\n" + objdrv.Prelude + prelude8 + `
 var __n = 0, __bad = 0;
 function __case(key, f, exp) {
   __n++;
@@ -30,7 +30,7 @@ function __case(key, f, exp) {
     oc = (e instanceof TypeError) ? "TypeError" : (e instanceof RangeError) ? "RangeError" : (typeof e === "string") ? "Thrown(" + e + ")" : "Other:" + e;
   }
   var obs = oc + "` + sep + `" + __obs8();
-  if (obs !== exp) { __bad++; console.log(key + "\n   model: " + exp + "\n   node:  " + obs); }
+  if (obs !== exp) { __bad++; if (__bad < 400) console.log(key + "\n   model: " + exp + "\n   node:  " + obs); }
 }
 `)
 	recvs := append(enumArrays(3), variantRecvs()...)
@@ -46,8 +46,8 @@ function __case(key, f, exp) {
 	}
 	cb, cb4 := V{K: "cb"}, V{K: "cb4"}
 	for _, rc := range recvs {
-		if rc.bigLen {
-			continue
+		if rc.bigLen || strings.Contains(rc.id, "2^32") {
+			continue // ES2015 ToLength (2^53-1) replaced ToUint32 for array-likes
 		}
 		for _, m := range []string{"toString", "toLocaleString", "pop", "shift", "reverse"} {
 			emit(callCase{rc: rc, method: m})
@@ -101,7 +101,7 @@ function __case(key, f, exp) {
 			}
 		}
 	}
-	sb.WriteString(`console.log("cases: " + __n + ", different: " + __bad);` + "\n")
+	sb.WriteString(`console.log("cases: " + __n + ", different: " + __bad);` + "\n}).call(globalThis);\n")
 	if err := os.WriteFile(out, []byte(sb.String()), 0o644); err != nil {
 		t.Fatal(err)
 	}
